@@ -1,5 +1,5 @@
 (* Pinned statements of C01: re-checked on every run. *)
-From SF Require Import Base.Prelude Gen.Generated Unsized.Types Unsized.Parse Unsized.Machine Unsized.Ops Unsized.Run Unsized.Proofs.EncodeParse Unsized.Proofs.Mem Unsized.Proofs.Notify Unsized.Proofs.Flat Unsized.Proofs.Layout Unsized.Proofs.Observe Unsized.Proofs.Path Unsized.Proofs.Context Unsized.Proofs.FocusOps Unsized.Proofs.NotifyInside Unsized.Proofs.Resize Unsized.Proofs.GenOps Unsized.Proofs.History Unsized.Proofs.Init Unsized.Proofs.History2 Unsized.Proofs.ExecTie Unsized.Proofs.ExecTie2 Unsized.Proofs.Keyed Unsized.Proofs.NotifyInside2 Unsized.Proofs.SetData Unsized.Proofs.History3 Unsized.Proofs.History4 Unsized.Proofs.Enums Unsized.Proofs.InitKinds Properties.C01.
+From SF Require Import Base.Prelude Gen.Generated Unsized.Types Unsized.Parse Unsized.Machine Unsized.Ops Unsized.Run Unsized.Proofs.EncodeParse Unsized.Proofs.Mem Unsized.Proofs.Notify Unsized.Proofs.Flat Unsized.Proofs.Layout Unsized.Proofs.Observe Unsized.Proofs.Path Unsized.Proofs.Context Unsized.Proofs.FocusOps Unsized.Proofs.NotifyInside Unsized.Proofs.Resize Unsized.Proofs.GenOps Unsized.Proofs.History Unsized.Proofs.Init Unsized.Proofs.History2 Unsized.Proofs.ExecTie Unsized.Proofs.ExecTie2 Unsized.Proofs.Keyed Unsized.Proofs.NotifyInside2 Unsized.Proofs.SetData Unsized.Proofs.History3 Unsized.Proofs.History4 Unsized.Proofs.Enums Unsized.Proofs.InitKinds Unsized.Proofs.StringSet Unsized.Proofs.Context Properties.C01.
 
 Check (C01_flat_step_refines :
   forall ts vs s top o vs',
@@ -218,6 +218,20 @@ Check (C01_dispatcher_refines_initializers :
     forall fuel, (length (kfocus o) < fuel)%nat ->
     exists s' top' pi', exec fuel ovf t s top [] (enc_kop t v o) = Ok (s', top', obs) /\
                         RepF pi' t v' s' top' /\ m_cap s' = m_cap s /\ m_refuse s' = m_refuse s).
+Check (C01_string_set_refines :
+  forall ovf t v s top pi0 pi bs v',
+    RepF pi0 t v s top -> m_refuse s <> 1 -> ostepStr (m_cap s) t v pi bs = Some v' ->
+    exists s' top' pi', mstepStr ovf t s top pi bs = Ok (s', top', []) /\ RepF pi' t v' s' top' /\
+                        m_cap s' = m_cap s /\ m_refuse s' = m_refuse s).
+Check (C01_run_refines_every_operation :
+  forall ovf t h v s top pi0 v' obss,
+    RepF pi0 t v s top -> m_refuse s <> 1 -> orunS (m_cap s) t v h = Some (v', obss) ->
+    exists s' top' pi', mrunS ovf t s top h = Ok (s', top', obss) /\ RepF pi' t v' s' top' /\ m_cap s' = m_cap s).
+Check (C01_dispatcher_run_refines :
+  forall fuel ovf t h v s top pi0 v' obss,
+    RepF pi0 t v s top -> m_refuse s <> 1 -> Forall snew h -> Forall (fun o => (length (sfocus o) < fuel)%nat) h ->
+    orunS (m_cap s) t v h = Some (v', obss) ->
+    exists s' top' pi', xrunS fuel ovf (m_cap s) t v s top h = Ok (s', top', obss) /\ RepF pi' t v' s' top' /\ m_cap s' = m_cap s).
 
 Print Assumptions C01_flat_step_refines.
 Print Assumptions C01_flat_run_refines.
@@ -255,3 +269,6 @@ Print Assumptions C01_dispatcher_tie_switch.
 Print Assumptions C01_initializer_writes_its_value.
 Print Assumptions C01_run_refines_with_initializers.
 Print Assumptions C01_dispatcher_refines_initializers.
+Print Assumptions C01_string_set_refines.
+Print Assumptions C01_run_refines_every_operation.
+Print Assumptions C01_dispatcher_run_refines.
